@@ -80,7 +80,10 @@ def observe_rows(vec: Dict[str, Any]) -> Dict[str, Any]:
         # drop_invalid_rows requires lazy=True; the subsample verdict is taken from the eager run and the lazy run is
         # observed as well (C06: documented error channel)
         kw: Dict[str, Any] = {"lazy": vec["mode"] == "drop"}
-        if vec["head"] >= 0:
+        if vec["head"] == -2:                       # FrameRows.tla SampleAll: a sample of all rows
+            kw["sample"] = len(vec["a"])
+            kw["random_state"] = 1
+        elif vec["head"] >= 0:
             kw["head"] = vec["head"]
         if vec["tail"] >= 0:
             kw["tail"] = vec["tail"]
@@ -92,6 +95,12 @@ def observe_rows(vec: Dict[str, Any]) -> Dict[str, Any]:
                 out["lazy_kind"] = "raises"
             except Exception as e:  # noqa: BLE001
                 out["lazy_kind"] = "Leak:" + type(e).__name__
+        if vec["mode"] == "subsample" and len(vec["a"]) == 1:
+            try:
+                schema.validate([1, 2])
+                out["nonframe"] = "returned"
+            except Exception as e:  # noqa: BLE001
+                out["nonframe"] = type(e).__name__
         try:
             res = schema.validate(df, **kw)
             out["kind"] = "ok"
